@@ -17,7 +17,7 @@ THEORIES, TRUSTED, ASSUMPTIONS = _loop.THEORIES, _loop.TRUSTED, _loop.ASSUMPTION
 def predicate(tr, rep):
     cfg, batches = tr["cfg"], tr["batches"]
     states = tr["snaps"] + [tr["final"]]
-    sign = -1.0 if cfg["minimization"] else 1.0
+    sign = -1 if cfg["minimization"] else 1
     prev = None
     for si, st in enumerate(states):
         where = dict(cfg=cfg, state=si)
